@@ -551,3 +551,8 @@ impl Config {
         }))
     }
 }
+
+#[cfg(feature = "isomer_erbium_verif")]
+mod isomer_erbium_verif {
+    include!(concat!(env!("ISOMER_ERBIUM_VERIF_DIR"), "/dhcp_config.rs"));
+}
